@@ -898,6 +898,7 @@ def container_shape(repo):
     out = {}
     cmod = _parse(repo, "core.py")
     out["Config._render_nested"] = _skeleton(_method(_class(cmod, "Config"), "_render_nested"), (), full=True)
+    out["Config.to_tree"] = _skeleton(_method(_class(cmod, "Config"), "to_tree"), (), full=True)
     for meth in ("_ref_path", "_keyfile", "_key_filename"):       # the three walks up the parent links (F74); `_method` finds the getter first
         out["Config." + meth] = _skeleton(_method(_class(cmod, "Config"), meth), (), full=True)
     for mod, cls, meth in ((lmod, "ListField", "validate"), (dmod, "DictField", "validate"), (lmod, "ListProxy", "__setitem__"), (lmod, "ListProxy", "__copy__"),
